@@ -159,7 +159,7 @@ class Graph:
         return p
 
 
-def transition_tour(g, max_paths=None, max_steps=None):
+def transition_tour(g, max_paths=None, max_steps=None, only=None):
     """Paths (lists of edge indices) from the initial state that together cover every edge
     (or as many as the budgets allow).  Each path walks from the initial state, takes an uncovered
     edge whenever the current node has one and otherwise heads for the nearest node that still has
@@ -167,7 +167,7 @@ def transition_tour(g, max_paths=None, max_steps=None):
     reachable any more.  Returns (paths, covered_edge_count, edge_count)."""
     par = g.bfs_parents()
     n_edges = len(g.edges)
-    uncovered = [g.edges[i][0] in par for i in range(n_edges)]
+    uncovered = [g.edges[i][0] in par and (only is None or i in only) for i in range(n_edges)]
     total = sum(uncovered)
     n_unc = total
     rev = collections.defaultdict(list)
@@ -439,6 +439,61 @@ def compare_run(bind, g, path, run):
     return None, ords
 
 
+def conform_runs(bind, g, runs):
+    """impl -> model: walk TLC's dumped state graph along executions that were NOT generated from it
+    (DFS / random exploration of the real code with the same programs and budgets): every recorded step
+    must be an edge of the graph with the same operation, operands, result and projected state.
+    Returns (number of runs inside the model, first run that leaves it or None)."""
+    inside = 0
+    first_bad = None
+    by_thread = {}
+    for nid, outs in g.out.items():
+        pass
+    for ri, r in enumerate(runs):
+        node = g.init
+        held, unl = {}, set()
+        steps = [i for i, e in enumerate(r["events"]) if "w" in e]
+        ok = True
+        for si, i in enumerate(steps):
+            e = r["events"][i]
+            j = steps[si + 1] if si + 1 < len(steps) else len(r["events"])
+            for x in r["events"][(steps[si - 1] + 1 if si else 0):i]:
+                track_guards(held, unl, x)
+            track_guards(held, unl, e)
+            h2, u2 = dict(held), set(unl)
+            for x in r["events"][i + 1:j]:
+                track_guards(h2, u2, x)
+            got_g = [sorted(t for t in h2 if h2[t] == "r"), sorted(t for t in h2 if h2[t] == "w")]
+            nxt = None
+            for ei in g.out.get(node, ()):
+                edge = g.edges[ei]
+                name, a = split_label(edge[2])
+                if not a or a[0] != e["t"]:
+                    continue
+                exp = bind.expect(g, edge)
+                if any(e.get(f) != v for f, v in exp.items() if not f.startswith("_")):
+                    continue
+                proj = bind.project(g.state(edge[1]))
+                gw = list(e.get("w", []))
+                gq = [sorted(x) for x in e.get("q", [])]
+                while len(gw) < len(proj["w"]):
+                    gw.append(0)
+                    gq.append([])
+                if gw == proj["w"] and gq == proj["q"] and got_g == proj["g"]:
+                    nxt = edge[1]
+                    break
+            if nxt is None:
+                ok = False
+                if first_bad is None:
+                    first_bad = {"run": ri, "event_index": i, "event": {k: v for k, v in e.items() if k not in ("w", "q")},
+                                 "model_edges_here": [g.edges[x][2] for x in g.out.get(node, ())][:12]}
+                break
+            node = nxt
+        if ok:
+            inside += 1
+    return inside, first_bad
+
+
 def replay_paths(chk, bindir, bind, g, paths, progs, tag):
     plans = os.path.join(chk.work, "plans_%s.ndjson" % tag)
     with open(plans, "w") as f:
@@ -498,7 +553,8 @@ class LockCheck:
     DEFAULT_ORD, INVARIANTS, cfg_constants(name,n,progs,budgets,ord_name) lines, bad_state(st) predicate,
     nontrivial(run) predicate, tiers: tours / configs / explore specs."""
 
-    def __init__(self, pid, lock, prefix, bind, progs, default_ord, invariants, budget_names, nontrivial, bad_state, rule, assumptions):
+    def __init__(self, pid, lock, prefix, bind, progs, default_ord, invariants, budget_names, nontrivial, bad_state, rule, assumptions, all_actions=()):
+        self.all_actions = list(all_actions)
         self.pid, self.lock, self.prefix, self.bind = pid, lock, prefix, bind
         self.PROGS, self.DEFAULT_ORD, self.INVARIANTS = progs, default_ord, invariants
         self.budget_names = budget_names
@@ -534,15 +590,21 @@ class LockCheck:
             "config": name, "threads": n, "programs": self.PROGS.get(progs, progs), "budgets": dict(zip(self.budget_names, budgets)),
             "distinct_states": res.distinct, "generated": res.generated, "wall_s": round(res.wall, 1), "orderings": ord_name, "passed": res.ok})
 
-    def model_check(self, chk, name, n, progs, budgets, observed=False, workers=8, timeout=1500, must=True):
+    def model_check(self, chk, name, n, progs, budgets, observed=False, workers=8, timeout=1500, must=True, soft_timeout=None):
+        """soft_timeout: a time cap for the big configurations of the thorough tier; hitting it is
+        reported in the evidence as 'not completed' (never as exhaustive), it is not a tool error."""
         ord_name = "OrdObs" if observed else "OrdCode"
         cfg = self.write_cfg(chk, name, n, progs, budgets, ord_name)
         module, cwd = ("%s_Obs.tla" % self.prefix, chk.work) if observed else ("%s_MC.tla" % self.prefix, core.SPECS)
         try:
-            res = core.run_tlc(module, cfg, cwd=cwd, workers=workers, timeout=timeout, xmx="10g",
+            res = core.run_tlc(module, cfg, cwd=cwd, workers=workers, timeout=soft_timeout or timeout, xmx="12g",
                                env={"JAVA_TOOL_OPTIONS": "-XX:ParallelGCThreads=4"})
         except core.ToolError as e:
-            if "timed out" in str(e) and not must:
+            if "timed out" in str(e) and (soft_timeout or not must):
+                core.log("TLC %s %s: not completed within %ds (reported as bounded by time)" % (self.prefix, name, soft_timeout or timeout))
+                chk.extra.setdefault("model_configs", []).append({
+                    "config": name, "threads": n, "programs": self.PROGS.get(progs, progs), "budgets": dict(zip(self.budget_names, budgets)),
+                    "completed": False, "time_cap_s": soft_timeout or timeout, "orderings": ord_name})
                 return None
             raise
         if must:
@@ -559,10 +621,12 @@ class LockCheck:
             json.dump(spec, f)
         return run_sched(bindir, "random" if "runs" in spec else "explore", path, timeout=3000)
 
-    def run(self, tier, tours, configs, configs_if_differs, specs, tour_budget=None, stress=None):
+    def run(self, tier, tours, configs, configs_if_differs, specs, tour_budget=None, stress=None, rare_tours=()):
         chk = core.Check(self.pid, tier, "model_checking")
         bindir = core.cargo_build(bins=["sched"])
         all_ords, drift, tour_stats = {}, [], []
+        actions_confirmed = {}
+        graphs = {}
         self.nontrivial = 0
 
         pending = []      # (runs, source): judged together at the end (one JVM start per 150k events)
@@ -592,6 +656,7 @@ class LockCheck:
             chk.add_tlc(res)
             self.record_config(chk, name, n, progs, budgets, res, "OrdCode")
             mp, ms = tour_budget or (None, None)
+            graphs[name] = g
             paths, covered, total = transition_tour(g, max_paths=mp, max_steps=ms)
             runs, divs, ords, agreed = replay_paths(chk, bindir, self.bind, g, paths, self.PROGS[progs], "%s_%s" % (self.lock, name))
             for k, v in ords.items():
@@ -601,6 +666,9 @@ class LockCheck:
             bad_runs = {d["run"]: d["k"] for d in divs}
             for i, p in enumerate(paths):
                 confirmed.update(p[:bad_runs.get(i, len(p))])
+            for ei in confirmed:
+                a = split_label(g.edges[ei][2])[0]
+                actions_confirmed[a] = actions_confirmed.get(a, 0) + 1
             tour_stats.append({"config": name, "states": len(g.label), "edges": len(g.edges), "tour_paths": len(paths), "tour_steps": steps,
                                "edges_in_tour": covered, "edges_confirmed_on_real_code": len(confirmed),
                                "edge_coverage": round(len(confirmed) / max(1, len(g.edges)), 4), "divergent_paths": len(divs)})
@@ -611,6 +679,40 @@ class LockCheck:
             judge_and_report(runs, "tour_" + name, "B1 tour of %s_MC %s" % (self.prefix, name))
             if len(chk.samples) < 2 and runs:
                 chk.sample({"source": "tour " + name, "progs": self.PROGS[progs], "sched": runs[len(runs) // 2]["end"]["sched"]})
+
+        # 1b. actions that no toured graph contains (they need more threads): partial tour of a bigger
+        #     graph that covers every edge of exactly those actions
+        for name, n, progs, budgets in rare_tours:
+            cfg = self.write_cfg(chk, name, n, progs, budgets)
+            res, g = dump_graph(chk, "%s_MC.tla" % self.prefix, cfg, "%s_%s" % (self.lock, name))
+            chk.add_tlc(res)
+            self.record_config(chk, name, n, progs, budgets, res, "OrdCode")
+            want = {i for i, e in enumerate(g.edges) if split_label(e[2])[0] not in actions_confirmed}
+            cap = 300 if tier == "quick" else 20000
+            if len(want) > cap:
+                want = set(sorted(want)[:cap])
+            paths, covered, total = transition_tour(g, only=want)
+            runs, divs, ords, agreed = replay_paths(chk, bindir, self.bind, g, paths, self.PROGS[progs], "%s_%s" % (self.lock, name))
+            for k, v in ords.items():
+                all_ords.setdefault(k, set()).update(v)
+            bad_runs = {d["run"]: d["k"] for d in divs}
+            confirmed = set()
+            for i, p in enumerate(paths):
+                confirmed.update(p[:bad_runs.get(i, len(p))])
+            for ei in confirmed:
+                a = split_label(g.edges[ei][2])[0]
+                actions_confirmed[a] = actions_confirmed.get(a, 0) + 1
+            tour_stats.append({"config": name, "partial": "edges of actions absent from the fully toured graphs", "states": len(g.label), "edges": len(g.edges),
+                               "edges_wanted": len(want), "tour_paths": len(paths), "tour_steps": sum(map(len, paths)),
+                               "edges_confirmed_on_real_code": len(confirmed), "edge_coverage": round(len(confirmed) / max(1, len(g.edges)), 4),
+                               "divergent_paths": len(divs)})
+            core.log("partial tour %s: %d states %d edges, wanted %d, %d paths, confirmed %d edges, %d divergent" % (
+                name, len(g.label), len(g.edges), len(want), len(paths), len(confirmed), len(divs)))
+            for d in divs[:3]:
+                drift.append({"config": name, **{k: d[k] for k in ("run", "k", "edge", "why")}})
+            judge_and_report(runs, "tour_" + name, "B1 partial tour of %s_MC %s" % (self.prefix, name))
+        chk.extra["actions_confirmed_by_replay"] = dict(sorted(actions_confirmed.items()))
+        chk.extra["actions_never_replayed"] = sorted(set(self.all_actions) - set(actions_confirmed))
 
         # 2. orderings actually passed by the code -> constants of the model
         observed = {k: sorted(v) for k, v in all_ords.items()}
@@ -624,8 +726,10 @@ class LockCheck:
 
         # 3. the remaining exhaustive configurations, with the observed orderings
         replayed_cex = False
-        for name, n, progs, budgets in (configs_if_differs if differs else []) + configs:
-            res = self.model_check(chk, name + ("obs" if differs else ""), n, progs, budgets, observed=bool(differs), must=not differs)
+        for cfgt in (configs_if_differs if differs else []) + configs:
+            name, n, progs, budgets = cfgt[:4]
+            res = self.model_check(chk, name + ("obs" if differs else ""), n, progs, budgets, observed=bool(differs), must=not differs,
+                                   soft_timeout=cfgt[4] if len(cfgt) > 4 else None)
             if res is not None and not res.ok and differs and not replayed_cex and res.distinct < 200000:
                 # a counterexample of the MODEL under the code's orderings is never a verdict: find a
                 # shortest path to a bad model state and replay it into the real code, B2 decides
@@ -645,11 +749,22 @@ class LockCheck:
         explored = []
         for tag, spec in specs:
             spec = dict(spec, seed=chk.seed, kind=self.lock)
+            gname = spec.pop("graph", None)
+            if gname:
+                spec["snap"] = True
             spec.setdefault("max_secs", 7 if tier == "quick" else 150)
             runs, info = self.explore(chk, bindir, spec, tag)
             explored.append({"tag": tag, "progs": spec["progs"], "preemption_bound": spec.get("preempt"), "runs": len(runs),
                              "complete_within_bound": info.get("complete"),
                              "budgets": {k: spec.get(k, 0) for k in ("spur", "eintr", "weak")}})
+            if gname and gname in graphs:
+                # impl -> model: the explored executions of the real code must be paths of TLC's graph
+                inside, bad = conform_runs(self.bind, graphs[gname], runs)
+                explored[-1]["runs_inside_model_graph"] = inside
+                explored[-1]["model_graph"] = gname
+                core.log("explore %s: %d of %d executions are paths of the model graph %s" % (tag, inside, len(runs), gname))
+                if bad:
+                    drift.append({"config": gname, "source": tag, **bad})
             core.log("explore %s: %d runs, complete=%s" % (tag, len(runs), info.get("complete")))
             judge_and_report(runs, tag, "exploration %s" % tag)
             if runs:
